@@ -13,8 +13,8 @@ REQUESTS_NEED_IMPL = True
 THEOREMS = ["C03_id_is_commit_hash", "C03_parse_partial", "C03_parse_full_refuted", "C03_manifest_injective",
             "C03_irrelevant_fields", "C03_legacy_extra_headers", "C03_post_init_keeps_manifest", "C03_presence_matrix",
             "C03_satisfiable", "C03_author_date_exact"]
-RULE = ("all 16 presence combinations of author/committer/date/committer_date (7 rejected by the validators) x 0-5 parents "
-        "(empty parent ids included) x message {None, empty, arbitrary, trailing newline, blank lines} x 0-4 extra headers "
+RULE = ("all 16 presence combinations of author/committer/date/committer_date (7 rejected by the validators) x 0-7 parents "
+        "(empty parent ids, repeated parents and a parent equal to the tree id included) x message {None, empty, arbitrary, trailing newline, blank lines} x 0-4 extra headers "
         "with values {empty, leading space, multi-line, trailing newline, newline+space} and keys mostly well-formed, "
         "sometimes exotic (space, newline, empty, reserved word: the recorded finding class) x dates over the accepted "
         "range; headers given as the attribute or inside legacy metadata; constructor and from_dict; non-trivial = an "
@@ -37,6 +37,10 @@ def gen(rng, tier):
         parents = [bytes(rng.randrange(256) for _ in range(20)).hex() for _ in range(n_par)]
         if parents and rng.random() < 0.1:
             parents[rng.randrange(len(parents))] = ""
+        directory = bytes(rng.randrange(256) for _ in range(20)).hex()
+        if parents and rng.random() < 0.2:     # git stores repeated parents verbatim: (p, p), (p, q, p, r), a parent equal to the tree id
+            for _ in range(rng.randrange(1, 3)):
+                parents.insert(rng.randrange(len(parents) + 1), rng.choice(parents + [directory]))
         n_ex = rng.choice([0, 0, 1, 2, 4])
         exotic = rng.random() < 0.08
         extra = [[(rng.choice(BAD_KEYS) if exotic and rng.random() < 0.6 else rng.choice(GOOD_KEYS)).hex(), gen_bytes(rng).hex()]
@@ -47,7 +51,7 @@ def gen(rng, tier):
                       "date": gen_date(rng) if pres & 2 else None,
                       "committer": gen_fullname(rng).hex() if pres & 4 else None,
                       "committer_date": gen_date(rng) if pres & 8 else None,
-                      "directory": bytes(rng.randrange(256) for _ in range(20)).hex(),
+                      "directory": directory,
                       "parents": parents, "extra": extra, "legacy": rng.random() < 0.3,
                       "synthetic": rng.random() < 0.5})
     return cases
@@ -82,6 +86,8 @@ def classify(c):
         ks.append("exotic-header-key")
     if any(p == "" for p in c["parents"]):
         ks.append("empty-parent")
+    if len(set(c["parents"])) < len(c["parents"]):
+        ks.append("repeated-parent")
     return ks
 
 
